@@ -188,9 +188,8 @@ def setters(rep, idx, rule="C01.5", only=None):
             rep.unk(rule, site, "self._memory_map = memory_map", f"{len(store)} store(s)")
             continue
         for t_, exc in [("not isinstance(memory_map, MemoryMap)", "TypeError")] + [(x, "ValueError") for x in tests]:
-            ok, detail = refuses(c, t_, exc)
-            rep.check(ok, rule, site, f"setter refuses a map unless not ({t_})",
-                      detail + ": bus and map geometry could disagree")
+            from .common import check_refusal
+            check_refusal(rep, rule, c, f"setter refuses a map unless not ({t_})", t_, exc)
         # every raise point (own or in a validation helper) comes before the store
         after = g.reachable([store[0]])
         late = [n.id for n in g.nodes if n.id in after and n.id != store[0] and fg.raises(n.id)]
